@@ -15,6 +15,9 @@ CONSTANTS
   PayLens = {1, 32737, 98000}
   BatchSizes = {1, 2}
   AllowExplicit = FALSE
+  MaxDamage = 0
+  DamageKinds = {}
+  CrcQuarantinesBlock = FALSE
 INIT GInit
 NEXT GNext
 INVARIANTS Emit Refines VerdictOk
